@@ -453,7 +453,7 @@ def check_value_gateway(ctx, tree, cls):
     values = [None, 1, 2.5, 'x', True, False, "it's", 0, '']
     probes = [(f'Constant({v!r})', const(v), [v]) for v in values]
     for op in ('=', '!=', '<>', '>', 'is', 'is not', 'like'):
-        for v in (None, 1, 'x%', 2.5):
+        for v in (None, 1, 'x%', 2.5, True, False):
             probes.append((f'a {op} {v!r}', Obj('BinaryOperation', op=op, args=[col, const(v)], alias=None, parentheses=False), [v]))
     for op in ('in', 'not in', 'IN'):
         for vs in ([1, 2.5], [1], ['x', 1], [2.5, True, 1], [1, None]):
@@ -481,6 +481,11 @@ def check_value_gateway(ctx, tree, cls):
         raw = [x for x in leaves if not isinstance(x, Elem)]
         special = [x.kind for x in leaves if isinstance(x, Elem) and x.kind in ('null', 'true', 'false', 'literal_column', 'text', 'bindparam')]
         same = len(lits) == len(vals) and all(type(a.value) is type(b) and a.value == b for a, b in zip(lits, vals))
+        if label.startswith(('a is ', 'a is not ')) and vals and (vals[0] is None or vals[0] is True or vals[0] is False):
+            # IS [NOT] NULL / TRUE / FALSE: the operand is the SQL keyword element, not a bound value (SQLAlchemy cannot negate `x IS <bound value>`: C06.is-operand)
+            kw = {None: 'null', True: 'true', False: 'false'}[vals[0]]
+            same = same or (not lits and special == [kw])
+            special = [] if special == [kw] else special
         ctx.ob('C07.value-gateway', label, not raw and not special and same,
                f'`{label}`: the constants reach SQLAlchemy as literals {[x.value for x in lits]}, raw operands {raw}, special elements {special}; every constant must be '
                f'sa.literal(<its value>), in order: raw values in a list are typed by the first one (`x IN (1, 2.5)` renders `IN (1, 2)`), a NULL element turns '
